@@ -92,11 +92,23 @@ pub fn run(ctx: &Ctx) -> Report {
     let n_rend: u64 = if thorough { 14 } else { 4 };
     let rend_pick: Vec<u64> = if thorough { (0..14).collect() } else { vec![0, 2, 6, 9] };
     let n_off = offsets.len() as u64;
-    let total = n_serv * n_off * n_rend * 2;
+    // parameters / headers that carry a lifetime in AWS's own protocols (a validity period, an expiry,
+    // temporary credentials): none of them widens or narrows the +-15 min window here
+    let lifetimes: Vec<Option<&str>> = if thorough {
+        vec![None, Some("60"), Some("900"), Some("901"), Some("3600"), Some("604800"), Some("0"), Some("-1")]
+    } else {
+        vec![None, Some("3600"), Some("604800")]
+    };
+    let n_life = lifetimes.len() as u64;
+    let total = n_serv * n_off * n_rend * 2 * n_life * 2;
     let server_order = [0usize, 5, 2, 1, 3, 4, 6, 7];
     let st = par_sweep(total, |i, st| {
         let mut x = i;
         let carrier = if x % 2 == 0 { Carrier::Header } else { Carrier::Query };
+        x /= 2;
+        let life = lifetimes[(x % n_life) as usize];
+        x /= n_life;
+        let with_token = x % 2 == 1;
         x /= 2;
         let r = rend_pick[(x % n_rend) as usize];
         x /= n_rend;
@@ -111,13 +123,29 @@ pub fn run(ctx: &Ctx) -> Report {
         let mut plan = e2e::base_plan(carrier);
         plan.instant = inst;
         plan.date_text = render(inst, r);
+        if let Some(l) = life {
+            match carrier {
+                Carrier::Query => plan.url_params.push((b"X-Amz-Expires".to_vec(), l.as_bytes().to_vec())),
+                Carrier::Header => {
+                    plan.headers.push(("X-Amz-Expires".into(), l.as_bytes().to_vec()));
+                    plan.headers.push(("Expires".into(), b"Mon, 31 Aug 2015 12:36:00 GMT".to_vec()));
+                    plan.signed.push("x-amz-expires".into());
+                }
+            }
+        }
+        if with_token {
+            plan.token = Some("SESSION/token+1=".into());
+            if carrier == Carrier::Header {
+                plan.signed.push("x-amz-security-token".into());
+            }
+        }
         e2e::rekey(&mut plan, e2e::SECRET, "us-east-1", "service");
         let built = build(&plan);
         let case = Case { wire: WireReq::from_wire(&built.wire), cfg: Cfg::basic(server), prov: ProvSpec::standard() };
         let j = e2e::judge_into(i, &case, st);
         let inside = off.abs() <= 900_000_000_000;
         st.state(&(inside, off.signum() as i8, j.reference.stage as u8));
-        st.nontrivial(&(server.secs, server.nanos, off as i64, (off >> 64) as i64, r, carrier));
+        st.nontrivial(&(server.secs, server.nanos, off as i64, (off >> 64) as i64, r, carrier, life, with_token));
         st.sample(i, total, || json!({"server": format!("{}+{}ns", server.compact(), server.nanos), "offset_ns": off.to_string(), "date": plan.date_text, "carrier": format!("{:?}", carrier), "inside_window": inside}));
         // independent cross-check of the window arithmetic (not via the reference verifier)
         if !j.unspecified && j.reference.accepted() != inside {
@@ -127,8 +155,8 @@ pub fn run(ctx: &Ctx) -> Report {
     Report {
         stats: st,
         rule: format!(
-            "{} server instants (plain, +1 ns, +999999999 ns, leap day, month/year/day boundaries) x {} offsets request-server (every whole second in [-1200 s, +1200 s]; +-1, 2, 1000 ns, 1 ms, 999999999 ns around both bounds; {} millisecond points within +-2 s of both bounds; +-1 h, 1 day, 1 year, 901 s) x {} renderings (basic/extended Z, +05:30, -08:00, +14:00, -12:00, 9/12-digit fractions with '.' and ',', +-00:01, -09:30, +12:45, -0000) x carrier; every request freshly and correctly signed (scope date = UTC date of its instant). Oracle: Ok iff |t - now| <= 900 s at nanosecond resolution; otherwise SignatureDoesNotMatch/403 with an empty provider log. states = (inside, side, stage)",
-            n_serv, n_off, if thorough { "all" } else { "every 25th of the" }, n_rend
+            "{} server instants (plain, +1 ns, +999999999 ns, leap day, month/year/day boundaries) x {} offsets request-server (every whole second in [-1200 s, +1200 s]; +-1, 2, 1000 ns, 1 ms, 999999999 ns around both bounds; {} millisecond points within +-2 s of both bounds; +-1 h, 1 day, 1 year, 901 s) x {} renderings (basic/extended Z, +05:30, -08:00, +14:00, -12:00, 9/12-digit fractions with '.' and ',', +-00:01, -09:30, +12:45, -0000) x carrier x {} lifetime decorations (none, or X-Amz-Expires = 60 .. 604800 s as a signed query parameter / signed header next to an Expires header) x session token present or not; every request freshly and correctly signed (scope date = UTC date of its instant). Oracle: Ok iff |t - now| <= 900 s at nanosecond resolution; otherwise SignatureDoesNotMatch/403 with an empty provider log. states = (inside, side, stage)",
+            n_serv, n_off, if thorough { "all" } else { "every 25th of the" }, n_rend, n_life
         ),
         bounds: json!({"servers": n_serv, "offsets": n_off, "renderings": n_rend}),
         exhaustive: true,
